@@ -17,14 +17,14 @@ import (
 
 // Job is one unit of work for a worker process.
 type Job struct {
-	ID    int               `json:"id"`
-	Prop  string            `json:"prop"`
-	Tier  string            `json:"tier"`
-	Seed  uint64            `json:"seed"`
-	Plan  *core.Plan        `json:"plan,omitempty"` // explicit plan (minimisation / replay); nil = generate from seed
-	Fatal map[string]string `json:"fatal,omitempty"`
-	Mode  string            `json:"mode,omitempty"` // "" normal, "c13sweep", "c16diff", "lrudrive"
-	WantPlan bool           `json:"want_plan,omitempty"`
+	ID       int               `json:"id"`
+	Prop     string            `json:"prop"`
+	Tier     string            `json:"tier"`
+	Seed     uint64            `json:"seed"`
+	Plan     *core.Plan        `json:"plan,omitempty"` // explicit plan (minimisation / replay); nil = generate from seed
+	Fatal    map[string]string `json:"fatal,omitempty"`
+	Mode     string            `json:"mode,omitempty"` // "" normal, "c13sweep", "c16diff", "lrudrive"
+	WantPlan bool              `json:"want_plan,omitempty"`
 }
 
 // Msg is one line from worker to coordinator.
